@@ -183,6 +183,9 @@ func genStep(p *Profile, cfg *Config) *rapid.Generator[[]Op] {
 			if calls < 1 {
 				calls = 1
 			}
+			if calls > 5 {
+				calls = 5 // huge thresholds: the composite cannot reach them anyway
+			}
 			var ops []Op
 			for c := 0; c < n; c++ {
 				for j := 0; j < calls; j++ {
@@ -208,6 +211,9 @@ func genStep(p *Profile, cfg *Config) *rapid.Generator[[]Op] {
 			if calls < 1 {
 				calls = 1
 			}
+			if calls > 5 {
+				calls = 5 // huge thresholds: the composite cannot reach them anyway
+			}
 			ops := []Op{{K: "pick", M: 1, Key: key}, {K: "done", Idx: -1, Out: 0}}
 			for j := 0; j < calls; j++ {
 				ops = append(ops, Op{K: "pick", M: 2, Key: key, DlMs: 1}, Op{K: "adv", Mode: 1, Idx: -1, Eps: 1}, Op{K: "done", Idx: -1, Out: 2})
@@ -226,6 +232,9 @@ func genStep(p *Profile, cfg *Config) *rapid.Generator[[]Op] {
 			calls := cfg.UdCalls
 			if calls < 1 {
 				calls = 1
+			}
+			if calls > 5 {
+				calls = 5 // huge thresholds: the composite cannot reach them anyway
 			}
 			ops := []Op{{K: "pick", M: 1, Key: k2}, {K: "done", Idx: -1, Out: 0}}
 			n := rapid.IntRange(1, 4).Draw(t, "un")
@@ -249,6 +258,9 @@ func genStep(p *Profile, cfg *Config) *rapid.Generator[[]Op] {
 			if calls < 1 {
 				calls = 1
 			}
+			if calls > 5 {
+				calls = 5 // huge thresholds: the composite cannot reach them anyway
+			}
 			var ops []Op
 			for i := 0; i < 6; i++ {
 				ops = append(ops, Op{K: "state", Idx: i, St: 2})
@@ -268,6 +280,9 @@ func genStep(p *Profile, cfg *Config) *rapid.Generator[[]Op] {
 			calls := cfg.UdCalls
 			if calls < 1 {
 				calls = 1
+			}
+			if calls > 5 {
+				calls = 5 // huge thresholds: the composite cannot reach them anyway
 			}
 			ops := []Op{{K: "pick", M: 1, Key: k2}, {K: "done", Idx: -1, Out: 0}, {K: "pick", M: 1, Key: k1}}
 			for j := 0; j < calls; j++ {
@@ -362,6 +377,9 @@ func genStep(p *Profile, cfg *Config) *rapid.Generator[[]Op] {
 			calls := cfg.UdCalls
 			if calls < 1 {
 				calls = 1
+			}
+			if calls > 5 {
+				calls = 5 // huge thresholds: the composite cannot reach them anyway
 			}
 			var ops []Op
 			for j := 0; j < calls; j++ {
@@ -501,7 +519,7 @@ var Profiles = map[string]*Profile{
 		W: map[string]int{"resolve": 1, "state": 30, "pick": 8, "done": 4, "adv": 1, "allready": 2, "decall": 8, "readyrepl": 8, "staledown": 4, "refreshcycle": 3, "flaprefresh": 4}, Methods: allMethods},
 	"hostile": {Name: "hostile", Wild: true, WM: []int{1}, Fallback: 50, UdMs: []int64{0, 1, 7}, UdCalls: []int{0, 1}, RR: 25, Strict: 50, Shutdown: true, Hostile: true, CfgOps: true, NoFirst: 20,
 		W: map[string]int{"resolve": 4, "reserr": 1, "state": 12, "pick": 20, "done": 10, "adv": 2, "failnew": 3, "cancel": 2, "allready": 3, "bindflow": 4, "decall": 6, "readyrepl": 5, "staledown": 3, "emptypool": 1, "saturate": 2, "affswap": 3, "fbflow": 3, "refreshcycle": 2, "bindacross": 2, "multibind": 2, "rrempty": 3}, Methods: hostileMethods},
-	"detector": {Name: "detector", Min: [2]int{1, 3}, Max: [2]int{1, 3}, WM: []int{100, 100, 2}, UdMs: []int64{0, 1, 7, 100, 60000, 1 << 31, 1<<32 - 1}, UdCalls: []int{0, 1, 2, 3, 4}, Strict: 50, Shutdown: true, RR: 20,
+	"detector": {Name: "detector", Min: [2]int{1, 3}, Max: [2]int{1, 3}, WM: []int{100, 100, 2}, UdMs: []int64{0, 1, 7, 100, 60000, 1 << 31, 1<<32 - 1}, UdCalls: []int{0, 1, 1, 2, 2, 3, 4, 1 << 31, 1<<32 - 1}, Strict: 50, Shutdown: true, RR: 20,
 		W: map[string]int{"resolve": 1, "state": 5, "pick": 8, "done": 8, "adv": 4, "failnew": 3, "allready": 2, "decall": 24, "readyrepl": 10, "refreshcycle": 10, "stalede": 8, "rrstraddle": 4}, Methods: []int{0, 0, 2, 1}},
 	"fallback": {Name: "fallback", Min: [2]int{2, 4}, Max: [2]int{2, 4}, WM: []int{1, 2, 3}, Fallback: 100, UdMs: []int64{0, 7, 100}, UdCalls: []int{1}, Strict: 50,
 		W: map[string]int{"resolve": 1, "state": 8, "pick": 20, "done": 6, "adv": 1, "allready": 3, "bindflow": 10, "decall": 5, "readyrepl": 6, "staledown": 6, "saturate": 2, "fbflow": 16, "affswap": 2, "bindacross": 1, "resurrect": 4}, Methods: []int{0, 2, 2, 2, 2, 5, 3, 1}},
